@@ -65,7 +65,7 @@ add('Flash', flash.tla_constants(), zero, bad, 'stepooc', 'fan')
 
 # ---- LiquidEq (C15) -------------------------------------------------------------------------------------------------------
 init = dict(T=0, z='none', cs='none')
-obs = dict(exc='none', msg='', two=True, act=100, same=0, scale=0, top_ok=True, neg=False, method='shgo', n=3)
+obs = dict(exc='none', msg='', two=True, act=100, same=0, scale=0, top_ok=True, neg=False, method='shgo', n=3, scale_tol=1000000)
 good = dict(op='lle', a=dict(T=1, z='z1', cs='c1', uc=True), post=dict(T=1, z='z1', cs='c1'), obs=obs)
 add('LiquidEq', liquideq.tla_constants(), init, good, OK)
 bad = copy.deepcopy(good); bad['obs']['same'] = 5 * 10 ** 6
